@@ -1,3 +1,4 @@
+#[cfg(not(mrecordlog_verif))]
 use std::collections::HashMap;
 use std::ops::{RangeBounds, RangeToInclusive};
 
@@ -6,6 +7,8 @@ use tracing::{info, warn};
 use crate::error::{AlreadyExists, AppendError, MissingQueue};
 use crate::mem::{MemQueue, QueuesSummary};
 use crate::rolling::FileNumber;
+#[cfg(mrecordlog_verif)]
+use crate::verif_hooks::HashMap;
 use crate::Record;
 
 #[derive(Default)]
